@@ -149,6 +149,47 @@ try:
 except BaseException as e:  # reported, the check decides
     out['rule_10'] = 'exc:' + type(e).__name__ + ':' + str(e)[:200]
 
+# ---- malformed specifications: whatever dawgie.schedule AND rule_10 let
+#      through must be computable at every instant ---------------------------
+mal = []
+for sp in P.get('malformed', []):
+    rec = {'spec': sp}
+    try:
+        kw = dict(sp)
+        if isinstance(kw.get('day'), list):
+            kw['day'] = datetime.date(*kw['day'])
+        if isinstance(kw.get('time'), list):
+            kw['time'] = datetime.time(*kw['time'])
+        ev = dawgie.schedule(_unit_factory, _UnitAlg(), **kw)
+        rec['schedule'] = True
+    except Exception as e:  # pylint: disable=broad-except
+        rec['schedule'] = False
+        rec['why'] = type(e).__name__
+        mal.append(rec)
+        continue
+    try:
+        mod = types.ModuleType('c20_rule10_mal')
+        mod.events = (lambda e: (lambda: [e]))(ev)
+        sys.modules['c20_rule10_mal'] = mod
+        rec['rule_10'] = bool(COMPL.rule_10('c20_rule10_mal'))
+    except BaseException as e:  # an exception inside a rule counts as a failed rule
+        rec['rule_10'] = False
+        rec['rule_10_exc'] = type(e).__name__
+    outs = []
+    for v in P.get('malformed_instants', []):
+        Clock._now = instant(v)
+        S.booted.clear()
+        try:
+            S._delay(ev)
+            outs.append('ok')
+        except S._DelayNotKnowableError:
+            outs.append('NotKnowable')
+        except BaseException as e:  # recorded by class name
+            outs.append('exc:' + type(e).__name__)
+    rec['delay'] = outs
+    mal.append(rec)
+out['malformed'] = mal
+
 # ---- sweep -----------------------------------------------------------------
 sw = P.get('sweep')
 if sw:
